@@ -79,6 +79,19 @@ def battery(t, data_dir, resource_xml, scratch, reverse=False):
             for x in we.synsets():
                 t.add(f'expand={label} {canon(x)}.hypernyms', x.hypernyms())
                 t.add(f'expand={label} {canon(x)}.hypernym_paths', x.hypernym_paths())
+            # taxonomy over placeholder synsets (g7 lacks two of the provider's concepts)
+            if exp == '':
+                continue
+            with warnings.catch_warnings():
+                warnings.simplefilter('ignore')
+                wp = wn.Wordnet('g7:1') if exp is None else wn.Wordnet('g7:1', expand=exp)
+            for a in wp.synsets():
+                t.add(f'expand={label} {canon(a)}.hypernym_paths (placeholders)', a.hypernym_paths())
+                for b in wp.synsets():
+                    for sr in (False, True):
+                        t.attempt(f'expand={label} common_hypernyms({canon(a)},{canon(b)},{sr})', a.common_hypernyms, b, simulate_root=sr)
+                        t.attempt(f'expand={label} lowest_common_hypernyms({canon(a)},{canon(b)},{sr})', a.lowest_common_hypernyms, b, simulate_root=sr)
+                        t.attempt(f'expand={label} shortest_path({canon(a)},{canon(b)},{sr})', a.shortest_path, b, simulate_root=sr)
     selections = [None] + [[lx.specifier()] for lx in wn.lexicons()]
     fams = [lx for lx in wn.lexicons() if lx.extensions()]
     for lx in fams:
@@ -151,7 +164,7 @@ def battery(t, data_dir, resource_xml, scratch, reverse=False):
                 (f'{tag} {k}.translate', x.translate),
             ])
         # taxonomy / IC / similarity on the graph lexicons (hypernymy stays inside one part of speech there)
-        if sel and len(sel) == 1 and sel[0].startswith('g') and len(synsets) <= 12:
+        if sel and len(sel) == 1 and sel[0].startswith('g') and not sel[0].startswith('g7') and len(synsets) <= 12:
             for pos in ('n', 'v', 'a'):
                 t.add(f'{tag} roots({pos})', taxonomy.roots(w, pos))
                 t.add(f'{tag} leaves({pos})', taxonomy.leaves(w, pos))
